@@ -6,7 +6,7 @@ HOOK_COMMITS = ["7269fa9"]  # /repo commits that add the verif-tagged hooks
 # id -> (level, technique, level text, level note, design ref)
 CHECKS = {
  "C02": ("exploration", "per-call byte-accounting monitor (P ++ X ++ S == consumed input, X == the dump's span) under the resume protocol + metamorphic CLI oracle pp(stream) == stream with pp(dump) substituted",
-         "Streams with known dump positions are scanned with the documented resume protocol by the real ScanSnapshot; a conservation monitor accounts for every input byte per call and globally; all line-kind sequences of bounded length from every scanner state are enumerated; the real pp binary is driven end to end. Held on the streams explored.",
+         "Streams with known dump positions are scanned with the documented resume protocol by the real ScanSnapshot; a conservation monitor accounts for every input byte per call and globally; all line-kind sequences of bounded length from every scanner state are enumerated; the real pp binary is driven end to end (stdin and file argument, with and without its banner), also on the real crash output of the repository's cmd/panic scenarios. Held on the streams explored.",
          "Trusts the stream generator's rule for which first line cannot continue a dump; the EOF-while-withheld class is a listed known finding.", "4/C02"),
  "C07": ("exploration", "online trace checker: scan-hook transitions vs executable reference line automaton, exhaustive bounded line-kind sequences from every scanner state + resume-protocol monitor on generated multi-dump streams",
          "Every (state, line-kind) transition the real scanner takes on all sequences of L lines over a 28-text alphabet, started from each of its states, is compared online with a reference automaton written from the documentation; generated streams check one snapshot per dump, equal to ground truth and to the dump scanned alone, no position scanned twice or skipped. Exhaustive for the bounded sequence space, sampled for streams.",
@@ -15,10 +15,10 @@ CHECKS = {
          "Reports printed by a model of tsan's Go report printer are parsed by the real ScanSnapshot and compared with the abstract report; the text after the closing separator must come back as remainder; a creation section for an unknown goroutine must be an error and must not be attributed to another goroutine. Held on the reports explored.",
          "Trusts the generator's reading of tsan_report.cpp (Go branch).", "4/C08"),
  "C03": ("exploration", "crash/hang net over child-process batches (recover + process-death detection + progress watchdog) on grammar-aware mutated inputs, exhaustive bounded line-kind sequences, pp exit-status monitor, allocation-volume scaling monitor",
-         "Mutated dumps/reports/streams and all bounded line-kind sequences go through the whole pipeline (repeated scanning to exhaustion with a strict-progress assertion, 4 aggregation levels, both HTML renderings, path guessing and source analysis on) in child processes; the pp binary is run on a sample; linear work is decided by counting Read calls / line scans and by TotalAlloc growth over scaling families. Held on the inputs explored.",
+         "Mutated dumps/reports/streams and all bounded line-kind sequences go through the whole pipeline (repeated scanning to exhaustion with a strict-progress assertion, 4 aggregation levels, both HTML renderings, path guessing and source analysis on) in child processes; the pp binary is run on a sample; real cmd/panic crash output and real tracebacks of generated programs (sources present) are corrupted too; invalid options, a source that makes no progress and a failing writer are covered; linear work is decided by counting Read calls / line scans and by TotalAlloc growth over scaling families; the thorough tier adds Go native coverage-guided fuzzing of the same pipeline. Held on the inputs explored.",
          "Allocation volume is a proxy for work; the superlinear root-guessing class is a listed known finding.", "4/C03"),
  "C09": ("exploration", "metamorphic oracle over scripted io.Reader schedules: (snapshot, forwarded bytes, error, remainder++unread) vs the single-Read baseline; all 2^(n-1) chunkings of short inputs, all single/double split points of small dumps",
-         "The scripted reader plays the scheduler: the same bytes are delivered one byte at a time, in fixed and random chunks, with zero-length read runs, with a boundary at every line end +/-2, with EOF attached to the last data; every schedule must give the same 4-tuple as a single Read. Exhaustive for short inputs, sampled otherwise.",
+         "The scripted reader plays the scheduler: the same bytes are delivered one byte at a time, in fixed and random chunks, with zero-length read runs, with a boundary at every line end +/-2, with EOF attached to the last data; every schedule must give the same 4-tuple as a single Read (generated streams and the real crash output of cmd/panic). Exhaustive for short inputs, sampled otherwise.",
          "Assumes readers honour the io.Reader contract (sticky error, n <= len(p)).", "4/C09"),
  "C10": ("fault_enumeration", "every byte offset x 3 failure modes (EOF, sticky error, error with last data) injected by the scripted reader; oracle compares goroutines before the cut with the uncut parse, the error identity and the forwarded-bytes prefix rule; web handler with maxmem below the dump size",
          "For each generated stream every cut offset and every way of signalling the cut is enumerated and executed on the real code (no sampling within an input); the set of inputs is sampled.",
@@ -60,7 +60,7 @@ CHECKS = {
          "Programs are generated (chains of functions/methods with random parameter lists over the supported kinds and boundary literals), compiled with -gcflags '-N -l', crashed, and their real traceback is parsed with source analysis; each rendered argument must equal what the program passed, everything else must equal the parse without source analysis; deleted/truncated/shifted/re-arity'd/broken sources must neither crash nor change a frame.",
          "Trusts the toolchains' traceback encoding; values beyond the runtime's 10-word limit are 'not shown'.", "4/C19"),
  "C20": ("exploration", "live-runtime monitor: the process's own runtime.Stack(all) dump vs an independent header count and a registry built from runtime.Callers; concurrent httptest clients against the handler under goroutine churn and the race detector, per-request dump correlation through the webstack hook",
-         "Churn rounds at GOMAXPROCS 1/4/16 parse the live dump and compare known goroutines' states, frames and creators with the registry; concurrent clients issue valid and invalid requests; every 200 page must account for all goroutines of the dump that request captured and pass the HTML tokenizer rules; invalid requests 4xx; -race with a canary. Held on the schedules that occurred.",
+         "Churn rounds at GOMAXPROCS 1/4/16 parse the live dump and compare known goroutines' states, frames and creators with the registry; concurrent clients (some of them slow readers, small socket buffers: the handler's writes block and overlap) issue valid and invalid requests against a real listener; every 200 page must be one complete document, must account for all goroutines of the dump that request captured and pass the HTML tokenizer rules; invalid requests 4xx; -race with a canary. Held on the schedules that occurred.",
          "States compared only after the settle loop; race detection is per execution.", "4/C20"),
  "C01": ("exploration", "generated dumps vs abstract ground truth (field-by-field oracle) + live-runtime registry vs runtime.Callers",
          "Every dump printed by a model of the runtime's traceback printer (all 864 format-variant combinations, all symbol/file/argument shapes, lines > 16 KiB) is parsed by the real ScanSnapshot and compared field by field with the abstract dump it was printed from; live rounds compare the running process's own dump with a registry built from runtime.Callers. Held-on-what-was-explored; the input space is unbounded.",
@@ -101,7 +101,7 @@ def main():
                      "kind_free_text": "Go harness linked against the real panicparse packages (build tag verif) plus the real pp binary driven through pipes; generators model the producers of the text, monitors are oracles over observed executions"}],
         "checks": checks,
         "not_applicable": na,
-        "notes": "Runtime monitoring only. ./check <ID> <quick|thorough> rebuilds harness and pp from /repo's working tree on every call. Exit 0 held / 1 VIOLATION / 2 BROKEN-CHECK. KNOWN_FINDINGS.txt lists known findings and fix commits.",
+        "notes": "Runtime monitoring only. Validation: mutants/ (62 hand-written mutants, tools/run_mutants.py) and seeded/ (67 changes by independent sub-agents, tools/run_seeded.py), see DESIGN.md 9.5; tools/coverage.sh is the reach analysis. ./check <ID> <quick|thorough> rebuilds harness and pp from /repo's working tree on every call. Exit 0 held / 1 VIOLATION / 2 BROKEN-CHECK. KNOWN_FINDINGS.txt lists known findings and fix commits.",
     }
     json.dump(m, open(os.path.join(ROOT, "MANIFEST.json"), "w"), indent=1)
     print("wrote MANIFEST.json: %d checks, %d not_applicable" % (len(checks), len(na)))
